@@ -104,6 +104,37 @@ theorem merge_iff (u₁ l₁ u₂ l₂ : Bnd) (x : Int) :
 example : ¬ okUpper (mergeUpper ⟨some 10, true⟩ ⟨none, false⟩) 10 := by simp [okUpper, mergeUpper]
 example : okLower (mergeLower ⟨some 5, true⟩ ⟨some 10, false⟩) 10 := by simp [okLower, mergeLower]
 
+/-! ### count keywords (`minLength`/`maxLength`, `minItems`/`maxItems`, `minProperties`/`maxProperties`):
+`someU64(…, selectMaxU64)` for the minimum, `someU64(…, selectMinU64)` for the maximum -/
+
+def okCount (mn mx : Option Nat) (n : Nat) : Prop :=
+  (match mn with | none => True | some m => m ≤ n) ∧ (match mx with | none => True | some m => n ≤ m)
+
+def mergeMin : Option Nat → Option Nat → Option Nat
+  | none, b => b
+  | a, none => a
+  | some a, some b => some (max a b)
+
+def mergeMax : Option Nat → Option Nat → Option Nat
+  | none, b => b
+  | a, none => a
+  | some a, some b => some (min a b)
+
+/-- **a count satisfies the merged keywords iff it satisfies both members'** -/
+theorem mergeCount_iff (mn₁ mx₁ mn₂ mx₂ : Option Nat) (n : Nat) :
+    okCount (mergeMin mn₁ mn₂) (mergeMax mx₁ mx₂) n ↔ okCount mn₁ mx₁ n ∧ okCount mn₂ mx₂ n := by
+  cases mn₁ <;> cases mn₂ <;> cases mx₁ <;> cases mx₂ <;> simp [okCount, mergeMin, mergeMax] <;> omega
+
+def cOf (v : String) : Option Nat := if v == "-" then none else v.toNat?
+def showC : Option Nat → String
+  | none => "-"
+  | some n => toString n
+/-- `cmerge <min1> <max1> <min2> <max2>` -/
+def countLine (p : String) : String :=
+  match p.splitOn " " with
+  | [a, b, c, d] => showC (mergeMin (cOf a) (cOf c)) ++ " " ++ showC (mergeMax (cOf b) (cOf d))
+  | _ => "bad"
+
 /-! line protocol: `bmerge <max1> <ex1> <min1> <exm1> <max2> <ex2> <min2> <exm2>` (`-` = no bound, flags 0/1) -/
 def bOf (v e : String) : Bnd := ⟨if v == "-" then none else v.toInt?, e == "1"⟩
 def showB (b : Bnd) : String :=
